@@ -1,6 +1,7 @@
 import enumcheck
 
-LEGS = [{"name": "C01", "variant": "serial-O2", "sources": ["harness/C01_integrity.c"]}]
+LEGS = [{"name": "C01", "variant": "serial-O2", "sources": ["harness/C01_integrity.c"]},
+        {"name": "C01t", "variant": "gomp", "sources": ["harness/C01_integrity.c"], "cflags": ["-DC01_THREADS=1"]}]
 RULE = ("case = (tuple of k sequences of length 0..L over a 2-3 letter alphabet | large-shape set) x admissible type x "
         "gap-penalty preset x entry point/format {array API, msa+fasta, msa+msf, msa+clustal}; ids are mixed-radix, "
         "every id of the space is run; non-trivial = alignment produced contains at least one gap")
@@ -8,7 +9,7 @@ RULE = ("case = (tuple of k sequences of length 0..L over a 2-3 letter alphabet 
 
 def run(tier):
     return enumcheck.run_enum("C01", tier, LEGS, RULE, "nontrivial_alignment_has_gap",
-                              assumptions=["threads axis here is n_threads=1 on the OpenMP-free build; thread counts and schedules are C02's space"])
+                              assumptions=["leg C01: n_threads=1 on the OpenMP-free build; leg C01t: the same space with 2, 3 or 8 threads on the real libgomp (one schedule each); all schedules are C02's space"])
 
 
 def replay(path):
